@@ -1,0 +1,34 @@
+package masks
+
+import (
+	"strings"
+
+	"github.com/mennanov/fmutils"
+)
+
+// nestedMask converts the paths of a field mask into a fmutils.NestedMask.
+//
+// A path that lies inside another path of the list adds nothing to the set of fields the list names: {f, f.c} names
+// the same fields as {f}. fmutils.NestedMaskFromPaths assumes such paths have been removed, given both it narrows f
+// down to f.c, so they are left out here.
+func nestedMask(paths []string) fmutils.NestedMask {
+	return fmutils.NestedMaskFromPaths(withoutNestedPaths(paths))
+}
+
+// withoutNestedPaths returns paths without those that lie inside another path of the list.
+func withoutNestedPaths(paths []string) []string {
+	var out []string
+	for _, p := range paths {
+		nested := false
+		for _, q := range paths {
+			if strings.HasPrefix(p, q+".") {
+				nested = true
+				break
+			}
+		}
+		if !nested {
+			out = append(out, p)
+		}
+	}
+	return out
+}
